@@ -9,14 +9,18 @@ use std::alloc::Allocator;
 verus! {
 global size_of usize == 8;
 pub mod shims {
-use super::*;
+use super::*; use super::code::CacheEntry;
 pub assume_specification<T, A: Allocator> [VecDeque::<T, A>::is_empty] (v: &VecDeque<T, A>) -> (r: bool) ensures r == (v@.len() == 0);
 #[verifier::external_body] pub struct Bytes { x: Vec<u8> }
 impl View for Bytes { type V = Seq<u8>; uninterp spec fn view(&self) -> Seq<u8>; }
 /// Arc<str>
 #[verifier::external_body] pub struct NameArc { x: u8 }
 impl View for NameArc { type V = Seq<char>; uninterp spec fn view(&self) -> Seq<char>; }
-pub struct CacheEntry { pub server_name: NameArc, pub tokens: VecDeque<Bytes> }
+impl NameArc {
+    /// `Arc::<str>::from(server_name)`
+    #[verifier::external_body] pub fn from_str(s: &str) -> (r: Self) ensures r@ == s@ { unimplemented!() }
+}
+impl Clone for NameArc { #[verifier::external_body] fn clone(&self) -> (r: Self) ensures r@ == self@ { unimplemented!() } }
 /// HashMap<Arc<str>, u32>
 #[verifier::external_body] pub struct NameMap { x: u8 }
 impl View for NameMap { type V = Map<Seq<char>, u32>; uninterp spec fn view(&self) -> Map<Seq<char>, u32>; }
@@ -25,7 +29,41 @@ impl NameMap {
         ensures match r { Some(s) => self@.contains_key(name@) && *s == self@[name@], None => !self@.contains_key(name@) } { unimplemented!() }
     #[verifier::external_body] pub fn remove(&mut self, name: &str) -> (r: Option<u32>)
         ensures final(self)@ == old(self)@.remove(name@) { unimplemented!() }
+    #[verifier::external_body] pub fn remove_arc(&mut self, name: &NameArc) -> (r: Option<u32>)
+        ensures final(self)@ == old(self)@.remove(name@), r.is_some() == old(self)@.contains_key(name@) { unimplemented!() }
+    /// `self.lookup.entry(name)`: exclusive access to the (present or absent) entry for that name; `fut` is a prophecy of the map once
+    /// the entry is gone (same modelling as the occupied entries in unit streams_state)
+    #[verifier::external_body] pub fn entry<'a>(&'a mut self, name: NameArc) -> (r: NameEntry<'a>)
+        ensures match r {
+            NameEntry::Occupied(e) => old(self)@.contains_key(name@) && e.slot() == old(self)@[name@],
+            NameEntry::Vacant(e) => !old(self)@.contains_key(name@) && e.key() == name@ && e.base() == old(self)@ && e.fut() == final(self)@ && !e.inserted(),
+        },
+        r is Occupied ==> final(self)@ == old(self)@,
+    { unimplemented!() }
 }
+pub enum NameEntry<'a> { Occupied(OccEntry<'a>), Vacant(VacEntry<'a>) }
+#[verifier::external_body] pub struct OccEntry<'a> { m: &'a mut NameMap }
+impl<'a> OccEntry<'a> {
+    pub uninterp spec fn slot(&self) -> u32;
+    #[verifier::external_body] pub fn get(&self) -> (r: &u32) ensures *r == self.slot() { unimplemented!() }
+}
+#[verifier::external_body] pub struct VacEntry<'a> { m: &'a mut NameMap }
+impl<'a> VacEntry<'a> {
+    pub uninterp spec fn key(&self) -> Seq<char>;
+    pub uninterp spec fn base(&self) -> Map<Seq<char>, u32>;
+    pub uninterp spec fn fut(&self) -> Map<Seq<char>, u32>;
+    pub uninterp spec fn inserted(&self) -> bool;
+    pub uninterp spec fn value(&self) -> u32;
+    /// `hmap_entry.insert(v)` (borrowing instead of consuming, so that one axiom describes both ways the entry can end)
+    #[verifier::external_body] pub fn insert(&mut self, v: u32)
+        requires !old(self).inserted()
+        ensures final(self).inserted(), final(self).value() == v, final(self).key() == old(self).key(), final(self).base() == old(self).base(), final(self).fut() == old(self).fut()
+    { unimplemented!() }
+}
+#[verifier::external_body]
+pub broadcast proof fn axiom_vac_resolved<'a>(e: VacEntry<'a>)
+    ensures #[trigger] has_resolved(e) ==> e.fut() == (if e.inserted() { e.base().insert(e.key(), e.value()) } else { e.base() })
+{}
 /// lru_slab::LruSlab<CacheEntry>
 #[verifier::external_body] pub struct LruSlab { x: u8 }
 impl View for LruSlab { type V = Map<u32, CacheEntry>; uninterp spec fn view(&self) -> Map<u32, CacheEntry>; }
@@ -37,12 +75,27 @@ impl LruSlab {
     #[verifier::external_body] pub fn remove(&mut self, slot: u32) -> (r: CacheEntry)
         requires old(self)@.contains_key(slot)
         ensures r == old(self)@[slot], final(self)@ == old(self)@.remove(slot) { unimplemented!() }
+    #[verifier::external_body] pub fn len(&self) -> (r: u32) ensures r == self@.len() { unimplemented!() }
+    /// the least recently used slot, if any
+    #[verifier::external_body] pub fn lru(&self) -> (r: Option<u32>) ensures match r { Some(s) => self@.contains_key(s), None => self@.len() == 0 } { unimplemented!() }
+    /// stores the value in a slot that was free
+    #[verifier::external_body] pub fn insert(&mut self, value: CacheEntry) -> (r: u32)
+        ensures !old(self)@.contains_key(r), final(self)@ == old(self)@.insert(r, value) { unimplemented!() }
 }
 }
 pub mod code {
 use super::*; use super::shims::*;
-// (written out with the shim types; it lives here so that the obligations are attributed to the repository's functions)
+// (written out with the shim types; they live here so that the obligations are attributed to the repository's functions)
+pub struct CacheEntry { pub server_name: NameArc, pub tokens: VecDeque<Bytes> }
 pub struct State { pub max_server_names: u32, pub max_tokens_per_server: usize, pub lookup: NameMap, pub lru: LruSlab }
+impl CacheEntry {
+//@ extract quinn-proto/src/token_memory_cache.rs :: impl CacheEntry::fn new
+//@ ret r
+//@ replace Arc<str> => NameArc
+//@ contract
+        ensures r.server_name == server_name, r.tokens@ == seq![token]
+//@ end
+}
 impl State {
     /// the tokens stored for a server name, oldest first
     pub open spec fn queue(&self, name: Seq<char>) -> Option<Seq<Bytes>> {
@@ -52,7 +105,29 @@ impl State {
     pub open spec fn wf(&self) -> bool {
         &&& forall|n: Seq<char>| self.lookup@.contains_key(n) ==> self.lru@.contains_key(#[trigger] self.lookup@[n]) && self.lru@[self.lookup@[n]].tokens@.len() > 0
         &&& forall|n1: Seq<char>, n2: Seq<char>| self.lookup@.contains_key(n1) && self.lookup@.contains_key(n2) && n1 != n2 ==> #[trigger] self.lookup@[n1] != #[trigger] self.lookup@[n2]
+        // every slot in use belongs to the name it records
+        &&& forall|k: u32| #[trigger] self.lru@.contains_key(k) ==> self.lookup@.contains_key(self.lru@[k].server_name@) && self.lookup@[self.lru@[k].server_name@] == k
     }
+    /// the configured bounds: at most max_server_names names, at most max_tokens_per_server tokens each
+    pub open spec fn bounded(&self) -> bool {
+        &&& self.lru@.len() <= self.max_server_names
+        &&& forall|k: u32| #[trigger] self.lru@.contains_key(k) ==> self.lru@[k].tokens@.len() <= self.max_tokens_per_server
+    }
+//@ extract quinn-proto/src/token_memory_cache.rs :: impl State::fn store
+//@ debug-assert drop
+//@ replace Arc::<str>::from(server_name) => NameArc::from_str(server_name)
+//@ replace hash_map::Entry::Occupied(hmap_entry) => ==>> NameEntry::Occupied(hmap_entry) =>
+//@ replace hash_map::Entry::Vacant(hmap_entry) => ==>> NameEntry::Vacant(mut hmap_entry) =>
+//@ replace self.lookup.remove(&removed_slot) => self.lookup.remove_arc(&removed_slot)
+//@ at-start
+        broadcast use axiom_vac_resolved, vstd::map::group_map_lemmas;
+//@ contract
+        requires old(self).wf(), old(self).bounded(),
+        ensures final(self).wf(), final(self).bounded(), final(self).max_server_names == old(self).max_server_names, final(self).max_tokens_per_server == old(self).max_tokens_per_server,
+            // the new token becomes the newest one stored for that server (unless the cache is configured to hold nothing)
+            (old(self).max_server_names > 0 && old(self).max_tokens_per_server > 0) ==>
+                (final(self).queue(server_name@) matches Some(q) && q.len() > 0 && q[q.len() - 1] == token),
+//@ end
 //@ extract quinn-proto/src/token_memory_cache.rs :: impl State::fn take
 //@ ret r
 //@ contract
